@@ -9,6 +9,21 @@ from typing import TypeVar
 T = TypeVar("T")
 
 
+def float_between(min: float, max: float, numerator: float, denominator: float = 1.0) -> float:
+    """min + (max - min) * numerator / denominator, for a fraction within [0, 1], kept inside [min, max].
+
+    The difference of the bounds overflows for ranges wider than the largest float, and it does not always add back
+    exactly ((0.1 - -0.3) + -0.3 is 0.10000000000000003): both would leave the requested bounds.
+    """
+    width = max - min
+    if math.isfinite(width):
+        v = numerator * width / denominator + min
+    else:
+        fraction = numerator / denominator
+        v = (1.0 - fraction) * min + fraction * max
+    return max if v > max else (min if v < min else v)
+
+
 class RandomSource(abc.ABC):
     @abc.abstractmethod
     def randint(self, min: int, max: int) -> int: ...
@@ -81,4 +96,4 @@ class NativeRandomSource(RandomSource):
         return self.random.randint(min, max)
 
     def random_float(self, min, max) -> float:
-        return self.random.random() * (max - min) + min
+        return float_between(min, max, self.random.random())
